@@ -56,7 +56,7 @@ class Connection:
       self._gfa._register_line(self)
       return None
 
-  def _initialize_references_or_undo(self):
+  def _initialize_references_or_undo(self, placeholder = None):
     # if the line cannot be connected, the references created so far are
     # removed, and the placeholders of unknown type which were given a type
     # are restored, so that the Gfa is left as it was
@@ -66,6 +66,13 @@ class Connection:
       gfa._refined_placeholders = []
     try:
       self._initialize_references()
+      if self.__class__.STORAGE_KEY == "name" and \
+          not gfapy.is_placeholder(self.name) and \
+          gfa.line(self.name) is not placeholder:
+        # (the identifier was not in use before)
+        raise gfapy.NotUniqueError(
+          "Line: {}\n".format(str(self))+
+          "The line refers to its own identifier")
     except Exception:
       self._undo_initialize_references()
       if outermost:
